@@ -360,7 +360,13 @@ def finalize(reports, ctx):
     viol = []
     n = 0
     for rep in reports:
-        for k, v in rep['extra'].get('outcomes', {}).items():
+        hs = rep.get('hashseed')
+        for k0, v in rep['extra'].get('outcomes', {}).items():
+            # only processes started with the SAME hash seed are compared:
+            # dependence on the hash seed is C06's subject (and, under F, the
+            # known finding D4 makes fair sets depend on set iteration order);
+            # here the question is dependence on the history of calls
+            k = '%s@%s' % (k0, hs)
             n += 1
             if k not in seen:
                 seen[k] = (v, rep['shard'])
